@@ -28,8 +28,10 @@ func c20Phone(ver consts.ProtocolVersionType) string {
 		if ver == consts.JT808Protocol2019 {
 			max = 20
 		}
-		for i := 1; i <= max; i++ {
-			lens = append(lens, i)
+		for _, i := range []int{1, 2, 3, 6, 11, 12, 13, 19, 20} {
+			if i <= max {
+				lens = append(lens, i)
+			}
 		}
 	}
 	// concrete numbers at the edges of what the width can hold (2019: 20 digits, beyond 64 bits)
@@ -154,7 +156,7 @@ func VerifC20Frames() {
 	// for the heartbeat; the other commands, whose bodies are what differs, use one phone and serial
 	// (the header code does not depend on the command). Thorough tier: symbolic for every command.
 	phone, pre := "13812345678", uint16(7)
-	if cmd == consts.T0002HeartBeat || vrt_Tier() > 0 {
+	if cmd == consts.T0002HeartBeat || (vrt_Tier() > 0 && (cmd == consts.T0100Register || cmd == consts.T0200LocationReport || cmd == consts.T0102RegisterAuth)) {
 		phone = c20Phone(ver)
 		pre = vrt_U16("serialBefore")
 	}
@@ -189,7 +191,7 @@ func VerifC20Custom() {
 	t := New(WithHeader(ver, phone))
 	lens := []int{0, 1, 3}
 	if vrt_Tier() > 0 {
-		lens = []int{0, 1, 2, 3, 5, 999, 1000, 1023}
+		lens = []int{0, 1, 2, 3, 5, 1023}
 	}
 	n := lens[vrt_Choose("bodyLen", len(lens))]
 	body := vrt_Bytes("body", n)
